@@ -1,5 +1,5 @@
 (* Extraction of the executable model and specification of C20 (ExtrOcamlBasic only). *)
-From MptV Require Import C20.LayoutTypes C20.LayoutConv C20.Gen_Layout C20.LayoutModel C20.LayoutSpec C20.LayoutCxxModel C20.LayoutCxxSpec.
+From MptV Require Import C20.LayoutTypes C20.LayoutConv C20.Gen_Layout C20.LayoutModel C20.LayoutSpec C20.LayoutCxxModel C20.LayoutCxxSpec C20.LayoutLoad C20.LayoutLoadSpec.
 Require Import ExtrOcamlBasic.
 Require Import ZArith NArith.
-Extraction "c20_model.ml" mrun srun defaults kind_no spec_match spec_colour_strict default_of cxx_new cxx_construct xrun xsrun lrun lsrun gx_empty def_layout layout_defaults obj_listed property_match color_parse color_print N.add N.mul Z.add Z.mul Z.opp.
+Extraction "c20_model.ml" mrun srun defaults kind_no spec_match spec_colour_strict default_of cxx_new cxx_construct xrun xsrun lrun lsrun llrun slrun ls_init sl_init lattr_set4 spec_lattr4 obj_props sdump gx_empty def_layout layout_defaults obj_listed property_match color_parse color_print N.add N.mul Z.add Z.mul Z.opp.
